@@ -1379,3 +1379,10 @@ package scipipe
 //@   ensures channel-closed-once[C04]: chanClosed(ch)
 //@   loop 0 invariant wf: wfProcess(p) && ch != nil && taskChanOwner(ch) == p && p == old(p) && ch == old(ch)
 //@   loop 0 invariant count: chanSentN(ch) >= old(chanSentN(ch)) && !chanClosed(ch)
+//@   loop 0 invariant lockstep[C04]: noJoin(p) ==> portsAdvanced(p, chanSentN(ch) - old(chanSentN(ch)))
+//@   loop 0 invariant no-ports-first-round[C04]: len(p.inPorts) == 0 && len(p.inParamPorts) == 0 ==> chanSentN(ch) == old(chanSentN(ch))
+//@   ensures one-task-per-complete-input-set[C04]: noJoin(p) ==> portsAdvancedAtExit(p, chanSentN(ch) - old(chanSentN(ch)))
+//@   ensures single-task-without-ports[C04]: len(p.inPorts) == 0 && len(p.inParamPorts) == 0 ==> chanSentN(ch) == old(chanSentN(ch)) + 1
+
+// at exit: every port delivered n items to tasks; the round that found a port closed read each port at most once more
+//@ define portsAdvancedAtExit(p *Process, n int) bool = n >= 0 && (forall i string :: i in p.inPorts ==> chanRecvN(p.inPorts[i].Chan) >= old(chanRecvN(p.inPorts[i].Chan)) + n && chanRecvN(p.inPorts[i].Chan) <= old(chanRecvN(p.inPorts[i].Chan)) + n + 1) && (forall i string :: i in p.inParamPorts ==> chanRecvN(p.inParamPorts[i].Chan) >= old(chanRecvN(p.inParamPorts[i].Chan)) + n && chanRecvN(p.inParamPorts[i].Chan) <= old(chanRecvN(p.inParamPorts[i].Chan)) + n + 1)
